@@ -21,6 +21,8 @@ import Ohsl.Props.C11
 import Ohsl.Props.C15
 import Ohsl.Props.C16
 import Ohsl.Props.C19
+import Ohsl.Props.C19M
+import Ohsl.Props.C03M
 set_option linter.unusedSectionVars false
 namespace Ohsl.Props.C20
 open Ohsl
@@ -94,6 +96,21 @@ theorem rejects_mesh {T X : Type} [Zero T] (m : Mesh1 T X) (node : Nat) (v : Arr
     ((node ≥ m.nodes.size ∨ v.size ≠ m.nvars) → ∃ e, Mesh1.setNodesVars m node v = .error e) ∧
     (node ≥ m.nodes.size → Mesh1.getNodesVars m node = .error .range) :=
   ⟨C19.set_rejects m node v, C19.get_rejects m node⟩
+
+/-- 2-D mesh entry points -/
+theorem rejects_mesh2 {T X : Type} [Zero T] (m : Mesh2 T X) (i j var : Nat) (v : Array T) :
+    ((m.nx ≤ i ∨ m.ny ≤ j ∨ v.size ≠ m.nvars) → ∃ e, Mesh2.setNodesVars m i j v = .error e) ∧
+    ((m.nx ≤ i ∨ m.ny ≤ j) → ∃ e, Mesh2.getNodesVars m i j = .error e) ∧
+    (m.nvars ≤ var → Mesh2.varAsMatrix m var = .error .range) ∧
+    (m.nx ≤ i → 0 < m.ny → ∃ e, Mesh2.crossSectionX m i = .error e) :=
+  ⟨C19.set_rejects2 m i j v, C19.get_rejects2 m i j, fun h => C19.varAsMatrix_rejects m h,
+   fun h hy => C19.crossSectionX_rejects m h hy⟩
+
+/-- after ANY history of editing operations that does not panic the dense matrix is still well formed
+    (len == rows*cols), and a rejected operation of a history yields `.error` — no value -/
+theorem history_keeps_wf (ops : List (Mat.MatOp K)) (m m' : Mat K) (h : m.WF)
+    (hv : ∀ op ∈ ops, op.Valid) (hr : Mat.run ops m = .ok m') : m'.WF :=
+  C03.history_wf ops hv h hr
 
 /-- a successful write changes only the addressed entry (frame condition for the dense matrix) -/
 theorem no_stray_write {m : Mat K} (h : m.WF) {i j : Nat} (hi : i < m.rows) (hj : j < m.cols) (v : K) :
